@@ -160,14 +160,14 @@ def century_ctrl(repo, rep):
                 if isinstance(y, tuple):
                     rec(y, guarded)
         rec(t, False)
-        n += len(cents)
+        n += 1
         if unguarded:
             rep.violation("R-CENTURY-CTRL", site, "century-unconditional",
                           "the century number %s enters the day count on a path with no Julian/Gregorian test: the Gregorian correction is applied to Julian-calendar dates too"
                           % T.show(unguarded[0])[:60])
         else:
             rep.ok("R-CENTURY-CTRL", site, "%d century term(s), each only under a calendar test" % len(cents))
-    rep.floor("century terms examined", n, 6)
+    rep.floor("functions with a century term examined", n, 2)
 
 
 def thresh_gap(repo, rep):
